@@ -25,6 +25,7 @@ structure S1Inv (FN : List String) (W0 : AMap Width) (s : Step1) : Prop where
   cDecl : ∀ k ∈ s.constantsRaw.keys, k ∈ s.declared
   cNotFixed : s.errors = [] → ∀ k ∈ s.constantsRaw.keys, k ∉ FN
   banks : ∀ b ∈ s.banksRaw, ∀ r ∈ b.regs, r.width.ok ∧ wfEx r.default = true
+  aAssigned : ∀ k ∈ s.assignments.keys, k ∈ s.assigned
 
 section
 variable (FN FO : List String) (W0 : AMap Width)
@@ -71,7 +72,8 @@ theorem step1Const_inv (s : Step1) (d : ConstDecl) (hd : wfEx d.value = true) (h
       rcases (AMap.mem_keys_insert _ _ _ _).mp hk with h1 | h1
       · exact h.cNotFixed (hback he).1 k h1
       · subst h1; exact (hback he).2
-    banks := h.banks }
+    banks := h.banks
+    aAssigned := h.aAssigned }
 
 theorem step1Wire_inv (s : Step1) (d : WireDecl) (hd : d.width.ok) (h : S1Inv FN W0 s) :
     S1Inv FN W0 (step1Wire FN s d) ∧ ((step1Wire FN s d).errors = [] → s.errors = []) := by
@@ -102,7 +104,8 @@ theorem step1Wire_inv (s : Step1) (d : WireDecl) (hd : d.width.ok) (h : S1Inv FN
       rw [mem_setInsert]
       exact Or.inl (h.cDecl k hk)
     cNotFixed := fun he k hk => h.cNotFixed (hback he).1 k hk
-    banks := h.banks }
+    banks := h.banks
+    aAssigned := h.aAssigned }
 
 theorem step1Name_inv (value : Ex) (hv : wfEx value = true) (s : Step1) (name : String) (h : S1Inv FN W0 s) :
     S1Inv FN W0 (step1Name FO value s name) ∧ ((step1Name FO value s name).errors = [] → s.errors = []) := by
@@ -126,7 +129,14 @@ theorem step1Name_inv (value : Ex) (hv : wfEx value = true) (s : Step1) (name : 
     wOk := h.wOk
     cDecl := h.cDecl
     cNotFixed := fun he k hk => h.cNotFixed (hback he) k hk
-    banks := h.banks }
+    banks := h.banks
+    aAssigned := by
+      intro k hk
+      show k ∈ setInsert s.assigned name
+      rw [mem_setInsert]
+      rcases (AMap.mem_keys_insert _ _ _ _).mp hk with h1 | h1
+      · exact Or.inl (h.aAssigned k h1)
+      · exact Or.inr h1 }
 
 /-- a fold of steps each of which keeps the invariant and never clears errors -/
 theorem fold_inv {α : Type} (P : Step1 → Prop) (f : Step1 → α → Step1) (Q : α → Prop)
